@@ -128,6 +128,9 @@ type result struct {
 	data     []byte
 }
 
+// cutUnit is the chunk size of the configuration being run (cut points are placed around it)
+var cutUnit = 2
+
 // deviations offered at one request; the first entry of every list is the conforming answer.
 func deviations(e *modelreg.Entry, n *modelreg.Net) []string {
 	switch e.Kind {
@@ -135,7 +138,20 @@ func deviations(e *modelreg.Entry, n *modelreg.Net) []string {
 		return []string{"ok", "500", "reset"}
 	case "upload-put":
 		if len(e.Body) > 0 {
-			return []string{"ok", "500", "reset", "413", "applied-reset"}
+			d := []string{"ok", "500", "reset", "413", "applied-reset"}
+			// the connection is lost in the middle of the body: the session keeps the prefix it received
+			if h := n.Hosts[e.Host]; h != nil {
+				if up := h.Repo(e.Repo).Uploads[e.Ref]; up != nil && len(up.Data) == 0 && e.Header.Get("Content-Range") == "" {
+					seen := map[int]bool{}
+					for _, k := range []int{1, cutUnit, cutUnit + 1, 2*cutUnit + 1, len(e.Body) - 1} {
+						if k > 0 && k < len(e.Body) && !seen[k] {
+							seen[k] = true
+							d = append(d, fmt.Sprintf("cut-%d", k))
+						}
+					}
+				}
+			}
+			return d
 		}
 		return []string{"ok", "500", "reset", "applied-reset"}
 	case "upload-patch":
@@ -242,6 +258,7 @@ func run(t *testing.T, c *explore.Ctx, cfg Cfg, scratch string) *result {
 			if res.nreq > 400 {
 				return &modelreg.Answer{Err: errors.New("harness: request horizon")}
 			}
+			cutUnit = cfg.Chunk
 			devs := deviations(e, net)
 			ch := c.Choose(e.Kind, len(devs), nil)
 			if ch == 0 {
@@ -298,6 +315,15 @@ func run(t *testing.T, c *explore.Ctx, cfg Cfg, scratch string) *result {
 				a.Header.Set("Location", "/v2/"+e.Repo+"/blobs/uploads/"+up.ID)
 				a.Header.Set("Range", fmt.Sprintf("0-%d", max(len(up.Data)-1, 0)))
 				return a
+			case strings.HasPrefix(dv, "cut-"):
+				var k int
+				fmt.Sscanf(dv, "cut-%d", &k)
+				up := h.Repo(e.Repo).Uploads[e.Ref]
+				if up == nil {
+					return nil
+				}
+				up.Data = append(up.Data, e.Body[:k]...)
+				return &modelreg.Answer{Err: errors.New("connection reset by peer"), Note: "dev-" + dv}
 			case strings.HasPrefix(dv, "partial-"):
 				var k int
 				fmt.Sscanf(dv, "partial-%d", &k)
@@ -544,7 +570,7 @@ func TestVerifC05(t *testing.T) {
 	rec := ev.New()
 	defer rec.Flush(t)
 	rec.Rule("configuration grid = blob length around every chunk/max boundary × chunk size × single-request limit × declared descriptor {absent, right, wrong digest, size±1, size only, digest only} × {sha256, sha512} × reader {seekable, non-seekable, one byte at a time, failing half way (plain and rewindable)} × upload Location style × server minimum chunk × anonymous mount declined / accepted (another repository holds the declared digest) × destination {registry model, OCI layout}; " +
-		"for the registry additionally every sequence of at most k deviations at the upload requests {500, connection reset, reply lost after the server applied the request, 413 on the single PUT, early 201, 416 re-sync, 202 without Range, partial acceptance of 1..3 bytes of a chunk}, k=2 quick / 3 thorough. " +
+		"for the registry additionally every sequence of at most k deviations at the upload requests {500, connection reset, reply lost after the server applied the request, connection lost in the middle of the single PUT's body with the received prefix kept by the session (cut after 1, chunk, chunk+1, 2·chunk+1, all-but-one bytes), 413 on the single PUT, early 201, 416 re-sync, 202 without Range, partial acceptance of 1..3 bytes of a chunk}, k=2 quick / 3 thorough. " +
 		"Oracle: committed bytes under the returned digest = stream; a failing source ⇒ error and nothing committed under the declared, the full or the prefix digest; declared≠actual ⇒ error and nothing under the declared digest; well-formed input against conforming behaviour succeeds. distinct_nontrivial = distinct (configuration, deviation list, outcome)")
 	rec.Assume("the in-memory transport reproduces net/http's Content-Length enforcement; all deviations offered are behaviours a conforming registry or a flaky network may show")
 	if rd := rec.ReplayData(); rd != nil {
